@@ -199,6 +199,36 @@ func errClass(err error) string {
 	}
 }
 
+var (
+	srvOnce    sync.Once
+	srvTargets []string
+	srvErr     error
+)
+
+// servers starts (once per process) two independent in-process servers.
+func servers() ([]string, error) {
+	srvOnce.Do(func() {
+		var wg sync.WaitGroup
+		res := make([]string, 2)
+		errs := make([]error, 2)
+		for i := 0; i < 2; i++ {
+			wg.Add(1)
+			go func(i int) {
+				defer wg.Done()
+				_, res[i], errs[i] = startServer()
+			}(i)
+		}
+		wg.Wait()
+		srvTargets = res
+		for _, e := range errs {
+			if e != nil {
+				srvErr = e
+			}
+		}
+	})
+	return srvTargets, srvErr
+}
+
 // startServer starts a fresh in-process server on a fresh port.
 func startServer() (*server.Server, string, error) {
 	var err error
@@ -265,15 +295,14 @@ func runScenario(sc string) (events []string, extra string) {
 		auto = steps[0] == "auto=1"
 		steps = steps[1:]
 	}
-	srv, target, err := startServer()
+	// two long-lived server instances per process: "restart" switches the proxy to the other
+	// one (which knows none of the sessions and subscriptions of the first: session loss)
+	targets, err := servers()
 	if err != nil {
 		return nil, "infra: server: " + err.Error()
 	}
-	defer func() {
-		if srv != nil {
-			go srv.Close() // Close waits up to 10 s for its channels: do not wait for it
-		}
-	}()
+	cur := 0
+	target := targets[cur]
 	px, err := newProxy(target)
 	if err != nil {
 		return nil, "infra: proxy: " + err.Error()
@@ -395,22 +424,15 @@ func runScenario(sc string) (events []string, extra string) {
 			px.stalled.Store(false)
 			tr.add("f.up")
 		case st == "restart", strings.HasPrefix(st, "sdown"):
-			// a new server instance (all sessions and subscriptions lost) replaces the old one
+			// another server instance (which knows none of the sessions and subscriptions) takes over
 			tr.add("f.restart")
-			old := srv
-			srv = nil
 			px.target.Store("127.0.0.1:1") // nothing listens there: the proxy closes what it accepts
 			px.cut()
-			go old.Close()
 			if strings.HasPrefix(st, "sdown") {
 				time.Sleep(ms(st[5:]))
 			}
-			var t string
-			srv, t, err = startServer()
-			if err != nil {
-				return tr.snapshot(), "infra: server restart: " + err.Error()
-			}
-			px.target.Store(t)
+			cur = 1 - cur
+			px.target.Store(targets[cur])
 			tr.add("f.up")
 		case st == "read":
 			_, err := c.Node(ua.NewNumericNodeID(0, 2258)).Value(ctx)
@@ -476,9 +498,7 @@ func runScenario(sc string) (events []string, extra string) {
 	time.Sleep(100 * time.Millisecond)
 	n, which := clientGoroutines()
 	tr.add(fmt.Sprintf("f.goroutines %d %s", n, which))
-	if !hooksSeen {
-		tr.add("f.nohooks")
-	}
+	_ = hooksSeen
 	return tr.snapshot(), res
 }
 
@@ -543,7 +563,7 @@ func scenarios(o *h.Opts, rnd *h.Rand) []string {
 		"auto=1 w30 closeAt:transferSubscriptions restart trap w100",
 	}
 	faults := []string{"cut", "down%d", "rst%d", "stall%d", "restart", "sdown%d", "cut", "down%d"}
-	for i := 0; i < o.N(10, 120); i++ {
+	for i := 0; i < o.N(6, 150); i++ {
 		sc := "auto=1 w" + fmt.Sprint(10+rnd.Intn(40))
 		n := 1 + rnd.Intn(4)
 		for j := 0; j < n; j++ {
@@ -622,7 +642,7 @@ func main() {
 		}
 	}
 	outs := make([]sscript.Answer, len(cases))
-	const workers = 6
+	const workers = 8
 	var wg sync.WaitGroup
 	for w := 0; w < workers; w++ {
 		var idx []int
@@ -660,16 +680,17 @@ func main() {
 		}
 		var lts []string   // events of the LTS alphabet
 		var marks []string // everything, for the oracle
+		sawDisc, sawErr := false, false
 		for _, e := range events {
-			if e == "f.nohooks" {
-				hooks = "0"
-			}
+			sawDisc = sawDisc || e == "st Disconnected"
+			sawErr = sawErr || strings.HasPrefix(e, "m.error")
 			marks = append(marks, e)
 			if !strings.HasPrefix(e, "f.") {
 				lts = append(lts, token(e))
 			}
 		}
-		if hooks == "0" {
+		if sawDisc && !sawErr { // the monitor reported Disconnected but no verifPoint fired: built without the points
+			hooks = "0"
 			r.Hit("no-verifpoints")
 		}
 		for _, e := range events {
